@@ -3,26 +3,76 @@ use std::io::{BufRead, Write};
 use std::path::PathBuf;
 use sv_parser::*;
 use serde_json::{json, Value};
+fn errs(e: &Error) -> String { format!("{:?}", e) }
+fn defs_of(v: &Value) -> Defines {
+    let mut d: Defines = HashMap::new();
+    if let Some(arr) = v["predef"].as_array() { for p in arr { let n = p["name"].as_str().unwrap().to_string(); let b = p["body"].as_str().map(|b| Define::new(n.clone(), vec![], Some(DefineText::new(b.to_string(), None)))); d.insert(n, b); } }
+    d
+}
+fn run(v: &Value) -> Value {
+    let mode = v["mode"].as_str().unwrap_or("pp");
+    let text = v["text"].as_str().unwrap_or("").to_string();
+    let d = defs_of(v);
+    match mode {
+        "pp" => {
+            let strip = v["strip"].as_bool().unwrap_or(false);
+            let inc: Vec<PathBuf> = vec![];
+            match preprocess_str(&text, "top.sv", &d, &inc, false, strip, 0, 0) {
+                Ok((t, defs)) => { let mut names: Vec<String> = defs.iter().filter(|(k,_)| !k.starts_with("SV_COV_")).map(|(k,v)| match v { None => format!("{}=", k), Some(dd) => format!("{}={}", k, dd.text.as_ref().map(|t| t.text.trim().to_string()).unwrap_or("<none>".into())) }).collect(); names.sort();
+                    let org: Vec<i64> = (0..t.text().len()).map(|i| t.origin(i).map(|(_,o)| o as i64).unwrap_or(-1)).collect();
+                    json!({"id": v["id"], "ok": true, "out": t.text(), "defs": names, "org": org}) }
+                Err(e) => json!({"id": v["id"], "ok": false, "err": errs(&e)}),
+            }
+        }
+        "parse" => {
+            let incomplete = v["incomplete"].as_bool().unwrap_or(false);
+            let lib = v["lib"].as_bool().unwrap_or(false);
+            let inc: Vec<PathBuf> = vec![];
+            let r = if lib { parse_lib_str(&text, "top.sv", &d, &inc, false, incomplete) } else { parse_sv_str(&text, "top.sv", &d, &inc, false, incomplete) };
+            match r {
+                Ok((t, _)) => {
+                    let mut leaves = vec![]; let mut idents = vec![]; let mut kinds: Vec<String> = vec![]; let mut skel = String::new(); let mut skip = 0usize; let mut enters = 0usize; let mut leaves_n = 0usize;
+                    for ev in (&t).into_iter().event() { match ev {
+                        NodeEvent::Enter(x) => { enters += 1;
+                            if let RefNode::WhiteSpace(_) = x { skip += 1; }
+                            match &x { RefNode::Locate(l) => { leaves.push(json!([l.offset, l.len, l.line])); if skip == 0 { skel.push_str(&format!("'{}' ", t.get_str(*l).unwrap())); } }
+                                       RefNode::SimpleIdentifier(s) => { idents.push(t.get_str(&s.nodes.0).unwrap().to_string()); if skip == 0 { skel.push_str("SimpleIdentifier "); } }
+                                       o => { if skip == 0 { let k = format!("{}", o); skel.push_str(&k); skel.push(' '); if v["kinds"].as_bool().unwrap_or(false) { kinds.push(k); } } } } }
+                        NodeEvent::Leave(x) => { leaves_n += 1; if let RefNode::WhiteSpace(_) = x { skip -= 1; } } } }
+                    let pptext: String = { // reconstruct text via get_str of the root
+                        let mut s = String::new(); for n in &t { if let RefNode::Locate(l) = n { s.push_str(t.get_str(l).unwrap()); } } s };
+                    let iter_n = (&t).into_iter().count();
+                    json!({"id": v["id"], "ok": true, "leaves": leaves, "idents": idents, "skel": skel, "concat": pptext, "enters": enters, "leaves_ev": leaves_n, "iter_n": iter_n, "kinds": kinds})
+                }
+                Err(e) => json!({"id": v["id"], "ok": false, "err": errs(&e)}),
+            }
+        }
+        "fs" => {
+            let dir = PathBuf::from(format!("/var/tmp/svp-probe/work/c{}", v["id"]));
+            let _ = std::fs::remove_dir_all(&dir); std::fs::create_dir_all(&dir).unwrap();
+            for (p, c) in v["files"].as_object().unwrap() { let fp = dir.join(p); std::fs::create_dir_all(fp.parent().unwrap()).unwrap(); std::fs::write(fp, c.as_str().unwrap()).unwrap(); }
+            std::env::set_current_dir(&dir).unwrap();
+            let incs: Vec<PathBuf> = v["incs"].as_array().unwrap().iter().map(|x| PathBuf::from(x.as_str().unwrap())).collect();
+            let ign = v["ignore"].as_bool().unwrap_or(false);
+            let r = preprocess("top.sv", &d, &incs, false, ign);
+            let j = match r {
+                Ok((t, defs)) => { let mut names: Vec<String> = defs.keys().filter(|k| !k.starts_with("SV_COV_")).cloned().collect(); names.sort(); json!({"id": v["id"], "ok": true, "out": t.text(), "defs": names}) }
+                Err(e) => json!({"id": v["id"], "ok": false, "err": errs(&e)}),
+            };
+            std::env::set_current_dir("/").unwrap(); let _ = std::fs::remove_dir_all(&dir);
+            j
+        }
+        _ => json!({"id": v["id"], "ok": false, "err": "bad mode"}),
+    }
+}
 fn main() {
     let stdin = std::io::stdin(); let out = std::io::stdout(); let mut out = std::io::BufWriter::new(out.lock());
     std::panic::set_hook(Box::new(|_| {}));
     for line in stdin.lock().lines() {
         let line = line.unwrap(); if line.is_empty() { continue; }
         let v: Value = serde_json::from_str(&line).unwrap();
-        let text = v["text"].as_str().unwrap().to_string();
-        let strip = v["strip"].as_bool().unwrap_or(false);
-        let mut d: Defines = HashMap::new();
-        if let Some(arr) = v["predef"].as_array() { for p in arr { let n = p["name"].as_str().unwrap().to_string(); let b = p["body"].as_str().map(|b| Define::new(n.clone(), vec![], Some(DefineText::new(b.to_string(), None)))); d.insert(n, b); } }
-        let r = std::panic::catch_unwind(|| {
-            let inc: Vec<PathBuf> = vec![];
-            match preprocess_str(&text, "top.sv", &d, &inc, false, strip, 0, 0) {
-                Ok((t, defs)) => { let mut names: Vec<String> = defs.iter().filter(|(k,_)| !k.starts_with("SV_COV_")).map(|(k,v)| match v { None => format!("{}=", k), Some(dd) => format!("{}={}", k, dd.text.as_ref().map(|t| t.text.trim().to_string()).unwrap_or("<none>".into())) }).collect(); names.sort();
-                    let org: Vec<i64> = (0..t.text().len()).map(|i| t.origin(i).map(|(_,o)| o as i64).unwrap_or(-1)).collect();
-                    json!({"id": v["id"], "ok": true, "out": t.text(), "defs": names, "org": org}) }
-                Err(e) => json!({"id": v["id"], "ok": false, "err": format!("{:?}", e)}),
-            }
-        });
-        let j = match r { Ok(j) => j, Err(_) => json!({"id": v["id"], "ok": false, "err": "PANIC"}) };
+        let v2 = v.clone();
+        let j = match std::panic::catch_unwind(move || run(&v2)) { Ok(j) => j, Err(_) => json!({"id": v["id"], "ok": false, "err": "PANIC"}) };
         writeln!(out, "{}", j).unwrap();
     }
 }
